@@ -165,6 +165,23 @@ func (builders ProofBuilderList) BuildDistributedProofList(
 		return nil, errors.New("Not enough ProofP's given")
 	}
 
+	// The answers of the keyshare server are merged into the proofs below; check them before any proof
+	// is created. In the current protocol version the server sends along the challenge that it
+	// computed itself: that must be ours. Merging an answer made for another challenge would
+	// make the proofs created after it use that challenge, and responses computed with a challenge
+	// chosen by someone else do not hide the secrets they are computed from.
+	for _, proofP := range proofPs {
+		if proofP == nil {
+			continue
+		}
+		if proofP.C == nil || proofP.SResponse == nil {
+			return nil, errors.New("incomplete ProofP")
+		}
+		if proofP.P == nil && proofP.C.Cmp(challenge) != 0 {
+			return nil, errors.New("ProofP was not computed for our challenge")
+		}
+	}
+
 	proofs := make([]Proof, len(builders))
 	// Now create proofs using this challenge
 	for i, v := range builders {
